@@ -62,6 +62,8 @@ var ruleTable = []RuleDef{
 	{"R-BACKFILL-COND", (*Model).ruleBACKFILLCOND, "whether the backfill snapshot is taken depends only on the feed arguments and on errors, never on stored state"},
 	{"R-VIEW-PARAMS", (*Model).ruleVIEWPARAMS, "every view query option honoured today (key range and its inclusive flags, descending, limit, include_docs) is read by the view query path"},
 	{"R-OPEN-ERR", (*Model).ruleOPENERR, "once the open function has registered the bucket no return carries an error (its cleanup-on-error deletes the store)"},
+	{"R-FRESH-DECODE", (*Model).ruleFRESHDECODE, "a map that json.Unmarshal decodes into inside a loop is a fresh variable (or reset) in every iteration"},
+	{"R-WAIT-LOCK", (*Model).ruleWAITLOCK, "no lock needed by the goroutine that closes a channel is held while waiting for that channel"},
 	{"R-TIMER", (*Model).ruleTIMER, "a new expiry timer is created only when the manager holds none"},
 }
 
